@@ -80,6 +80,62 @@ def _test_eval(default_platform: bool, true_names):
     return ev
 
 
+KEY_PRESERVING = {"pretty_flowir_sort": "re-orders keys, keeps all of them (checked by R1)", "deep_copy": "copy", "deepcopy": "copy",
+                  "copy": "copy", "dict": "copy"}
+
+
+def check_stored_is_instance_output(ctx, conf) -> None:
+    rule = "C07.R8-stored-is-instance-output"
+    fn = conf.func(CLS + "store_unreplicated_flowir_to_disk")
+    ctx.analysed(fn)
+    dumps = [c for c in source.calls_in(fn, include_nested=True) if (last_attr(c) or call_name(c) or "") in ("yaml_dump", "dump", "safe_dump")]
+    ctx.require(bool(dumps), "anchor missing: yaml dump call in store_unreplicated_flowir_to_disk")
+    from vlib import flow
+    cfg = CFG(fn)
+    for d in dumps:
+        obj = d.args[0] if d.args else None
+        chain = []
+        ok = False
+        bad = None
+        at = [n for n in cfg.nodes if n.ast is not None and n.kind in ("stmt", "with") and any(c is d for c in own_calls(n.ast))]
+        ctx.require(bool(at), "cannot locate the CFG node of the yaml dump")
+        here = at[0].id
+        e = obj
+        for _ in range(10):
+            if isinstance(e, ast.Name):
+                rd = flow.reaching_defs(cfg, e.id, ignore_labels=("exc",)).get(here, frozenset())
+                if len(rd) != 1 or -1 in rd:
+                    bad = "'%s' has %d reaching definitions at this point" % (e.id, len(rd))
+                    break
+                here = next(iter(rd))
+                v = flow.def_value(cfg, here, e.id)
+                if v is None:
+                    bad = "'%s' is not defined by a plain assignment" % e.id
+                    break
+                e = v
+                continue
+            if isinstance(e, ast.Call):
+                name = last_attr(e) or (call_name(e) or "").split(".")[-1]
+                if name == "instance" and "_unreplicated" in source.src(e.func):
+                    ok = True
+                    break
+                if name in KEY_PRESERVING and e.args:
+                    chain.append(name)
+                    e = e.args[0]
+                    continue
+                bad = "%s(...) is not a key-preserving function" % (call_name(e) or name)
+                break
+            bad = "unrecognised expression %s" % short(e, 50)
+            break
+        ctx.ob(rule, d, ok and bad is None,
+               "the dumped object is instance() of the unreplicated description%s" % ((" through " + ", ".join(reversed(chain))) if chain else "")
+               if ok and bad is None else
+               "the description written to flowir_instance.yaml is not the output of instance() passed through key-preserving "
+               "functions only (%s): e.g. stripping empty containers removes an explicit 'shutdownOn: []' that shadows an inherited "
+               "list, so the reloaded component resolves to the inherited value" % bad,
+               construct="yaml dump of instance() in store_unreplicated_flowir_to_disk")
+
+
 def check_scope_precedence(ctx, fl, inst, flowir_lit, consts) -> None:
     """R7 (LAYER engine): the writer (instance) and the live resolver (get_component_variables) are sibling
     implementations of one precedence order; compare them on all membership patterns of a name in the four scopes."""
@@ -157,6 +213,9 @@ def run(ctx) -> None:
     ctx.rule("C07.R4-iterations-persisted", "the controller instantiates the next iteration with store_flowir_to_disk=True and the graph stores after adding the components")
     ctx.rule("C07.R5-same-file-names", "store, generate and load use the same instance/manifest file names")
     ctx.rule("C07.R6-patch-before-store", "user variables are patched in before the unreplicated copy is taken and stored")
+    ctx.rule("C07.R8-stored-is-instance-output", "what is dumped to flowir_instance.yaml is the dictionary returned by instance(), passed "
+             "only through key-preserving functions (pretty_flowir_sort, copies): no lossy transformation (e.g. dropping "
+             "empty lists, which are real values that shadow an inherited list) between the two")
     ctx.rule("C07.R7-flattening-keeps-scope-precedence", "for every way a variable name can be defined in the default/platform x "
              "global/stage scopes, the single-platform description written by instance() lets the same scope win as "
              "get_component_variables does on the live multi-platform description")
@@ -221,6 +280,9 @@ def run(ctx) -> None:
 
     # ---------------- R7 -------------------------------------------------------------------------------
     check_scope_precedence(ctx, fl, inst, lits[0], consts)
+
+    # ---------------- R8 -------------------------------------------------------------------------------
+    check_stored_is_instance_output(ctx, conf)
 
     # ---------------- R2 -------------------------------------------------------------------------------
     imp_tests = [n for n in source.walk_own(inst) if isinstance(n, ast.If) and "'$import'" in source.src(n.test)]
